@@ -74,6 +74,18 @@ FRAGMENTS = {
                                 ("O3", "O", (-0.87, 0.87, -0.87)), ("O4", "O", (0.92, -0.92, -0.92)),
                                 ("C1", "C", (0.92 + 0.83, -0.92 - 0.83, -0.92 - 0.83))],
                         {"O1": "OP", "O2": "OP", "O3": "OP", "O4": "O3"}),
+    # an ester: a carbonyl and an ether oxygen on one carbon - not a carboxylate, whatever the order of the records
+    "methylacetate": ("MAC", [("C1", "C", (0, 0, 0)), ("C2", "C", (1.50, 0, 0)), ("O1", "O", (1.21 * c120, 1.21 * s120, 0)),
+                              ("O2", "O", (1.34 * c120, -1.34 * s120, 0)), ("C3", "C", (1.34 * c120 - 1.44, -1.34 * s120, 0))],
+                      {"O1": "O2", "O2": "O3"}),
+    # a five-membered aromatic ring
+    "imidazole": ("IMD", [("N1", "N", _ring(5, 1.37)[0]), ("C2", "C", _ring(5, 1.37)[1]), ("N3", "N", _ring(5, 1.37)[2]),
+                          ("C4", "C", _ring(5, 1.37)[3]), ("C5", "C", _ring(5, 1.37)[4])], {"N1": "NAR", "N3": "NAR"}),
+    # carbon - iodine, 2.14 A: longer than the 2.0 A rule for heavy atoms
+    "iodomethane": ("IME", [("C1", "C", (0, 0, 0)), ("I1", "I", (2.14, 0, 0))], {}),
+    # a sulfur with four oxygens under a residue name that is not the ignored SO4
+    "sulfate": ("SUL", [("S1", "S", (0, 0, 0)), ("O1", "O", (0.86, 0.86, 0.86)), ("O2", "O", (-0.86, -0.86, 0.86)),
+                        ("O3", "O", (-0.86, 0.86, -0.86)), ("O4", "O", (0.86, -0.86, -0.86))], {}),
     "ethylenediamine": ("EDA", [("N1", "N", (0, 0, 0)), ("C1", "C", (1.47, 0, 0)), ("C2", "C", (1.47 + 1.53 * 0.34, 1.53 * 0.94, 0)),
                                 ("N2", "N", (1.47 + 1.53 * 0.34 + 1.47, 1.53 * 0.94, 0))], {"N1": "N31", "N2": "N31"}),
 }
@@ -96,8 +108,9 @@ def nucleotide(resn):
     return (resn, atoms, expect)
 
 
-def records(name, chain="L", resnum=900, rot=None, origin=(0, 0, 0), tag="HETATM", serial0=9000):
-    """Fragment as PDB records at a lattice pose. rot: 3x3 float matrix or None."""
+def records(name, chain="L", resnum=900, rot=None, origin=(0, 0, 0), tag="HETATM", serial0=9000, order=None):
+    """Fragment as PDB records at a lattice pose. rot: 3x3 float matrix or None. order: a permutation of the
+    atom indices (the order of the records within a hetero residue is arbitrary)."""
     if name in FRAGMENTS:
         resn, atoms, expect = FRAGMENTS[name]
     elif name.startswith("ion:"):
@@ -112,6 +125,8 @@ def records(name, chain="L", resnum=900, rot=None, origin=(0, 0, 0), tag="HETATM
     else:
         raise KeyError(name)
     out = []
+    if order is not None and len(order) == len(atoms):
+        atoms = [atoms[k] for k in order]
     for i, (an, el, (x, y, z)) in enumerate(atoms):
         if rot is not None:
             x, y, z = (rot[0][0] * x + rot[0][1] * y + rot[0][2] * z, rot[1][0] * x + rot[1][1] * y + rot[1][2] * z,
@@ -141,7 +156,8 @@ def random_rotation(rng):
             (2 * (x * z - y * w), 2 * (y * z + x * w), 1 - 2 * (x * x + y * y)))
 
 
-def place_near(recs, name, rng, anchor=None, dist_A=None, chain="L", resnum=900, min_clear_A=2.7, tries=200, lattice=False):
+def place_near(recs, name, rng, anchor=None, dist_A=None, chain="L", resnum=900, min_clear_A=2.7, tries=200, lattice=False,
+               shuffle=False):
     """Fragment records placed so that its first declared atom (or first atom) is dist_A from an
     anchor atom of `recs` and no fragment atom is closer than min_clear_A to any atom of recs.
     Returns (fragment records, expect, distance) or (None, None, None)."""
@@ -156,7 +172,11 @@ def place_near(recs, name, rng, anchor=None, dist_A=None, chain="L", resnum=900,
         # lattice: one of the 24 rotations of the grid, so that the bonds the library builds along its axes
         # stay exactly along +-x, +-y, +-z (model-built ligands)
         rot = rng.choice(pdbio.ROTATIONS) if lattice else random_rotation(rng)
-        frag, expect = records(name, chain, resnum, rot)
+        order = None
+        if shuffle and name in FRAGMENTS:
+            order = list(range(len(FRAGMENTS[name][1])))
+            rng.shuffle(order)
+        frag, expect = records(name, chain, resnum, rot, order=order)
         key = next((r for r in frag if r.aname() in expect), frag[0])
         target = (a.x + int(round(d * 1000 * v[0] / n)), a.y + int(round(d * 1000 * v[1] / n)), a.z + int(round(d * 1000 * v[2] / n)))
         shift = (target[0] - key.x, target[1] - key.y, target[2] - key.z)
